@@ -1,8 +1,12 @@
 """C15 — leak reporting is exact (DESIGN.md #C15)"""
-import subjects
+import re
+import common, subjects
 
 SPEC = dict(modules=["MemVerif.Props.C15"], gen_cfgs=("rwdi",),
-            assumptions=["the process-wide report of the stateless low-level allocators at exit is not covered in this round (partial)"])
+            assumptions=["process-wide report of heap/malloc/new_allocator at exit: checked on the real code in child processes (seeded "
+                         "histories through allocator_traits on fresh copies of the stateless allocator; exactly one handler call with the "
+                         "exact net incl. the fence bytes the allocator adds, none when balanced); the model of it is the same counter as "
+                         "for objects (C15_net_exact), the once-at-exit part (nifty counter over translation units) is runtime behaviour"])
 
 
 def run(ctx):
@@ -12,5 +16,29 @@ def run(ctx):
     ctx.coverage["rule"] = ("histories mixing member and allocator_traits calls (node and array, element sizes different from the pool's node size) "
                             "with moves; a recording leak handler; compared with the model per destruction: number of handler calls (0 or 1) and the "
                             "exact amount, the per-object counter after every operation (read from the object), moved-from objects report nothing; "
-                            "rel (leak checking off) must never call the handler")
+                            "rel (leak checking off) must never call the handler; low-level allocators: child processes, exactly one report with the "
+                            "exact process-wide net after main returns, none when balanced")
+    # process-wide net of the stateless low-level allocators, reported once after main returns (child processes)
+    nexit = 0
+    for cfg in ["rwdi", "dbg", "rel"]:
+        exe = ctx.harness("subj_lowlevel", cfg, flags=["-fno-access-control"])
+        for which in ("heap", "malloc", "new"):
+            for sd in range(ctx.seed * 100, ctx.seed * 100 + (24 if ctx.thorough else 6)):
+                rc, out, err = common.run_harness(exe, ["exit", which, sd], timeout=60)
+                nexit += 1
+                m = re.search(r"expect (-?\d+)", out)
+                leaks = re.findall(r"LEAK (\S+) (-?\d+)", out.split("expect")[-1]) if "expect" in out else []
+                early = re.findall(r"LEAK", out.split("expect")[0]) if "expect" in out else []
+                want = int(m.group(1)) if m else None
+                leak_on = cfg != "rel"
+                ok = rc == 0 and m is not None and not early and (
+                    (len(leaks) == 0) if (want == 0 or not leak_on) else (len(leaks) == 1 and int(leaks[0][1]) == want))
+                if not ok:
+                    ctx.violation("C15-exit-%s-%s-%d" % (cfg, which, sd),
+                                  "%s_allocator [%s] history seed %d: net %s bytes unreleased at exit, leak handler calls after main: %s%s (rc=%d)" % (
+                                      which, cfg, sd, want, leaks, " and %d before main returned" % len(early) if early else "", rc),
+                                  dict(subject="lowlevel-exit", cfg=cfg, replay_cmd="%s exit %s %d" % (exe, which, sd), stdout=out[-400:]),
+                                  signature=dict(oracle="exit-net", cfg=cfg, allocator=which))
+    ctx.coverage["exit_scenarios"] = nexit
+    ctx.coverage["evaluations"] += nexit
     subjects.sample(ctx, st)
